@@ -99,11 +99,23 @@ def instances(tier):
         regs = regions_of(dummy, module_level="module" in sk.tags)
         for r in range(len(regs)):
             out.append(("extract.%s.r%02d.%s" % (sk.name, r, regs[r][0]), dict(k=k, r=r, tier=tier)))
+        if tier == "thorough":
+            # two-letter spellings, one slot at a time, on the first region of every kind
+            from harness.bcommon import len2_variants
+
+            first = {}
+            for r in range(len(regs)):
+                first.setdefault(regs[r][0], r)
+            for suf, slot in len2_variants(sk, tier)[1:]:
+                for kind_, r in sorted(first.items()):
+                    out.append(("extract.%s.r%02d.%s%s" % (sk.name, r, kind_, suf), dict(k=k, r=r, tier=tier, len2=slot)))
     return out
 
 
 def make_run(p):
-    sk = corpus(p["tier"])[p["k"]]
+    from harness.bcommon import with_len2
+
+    sk = with_len2(corpus(p["tier"])[p["k"]], p.get("len2"))
 
     def build_op(sk_, names, files, cf):
         regs = regions_of(cf["main.py"], module_level="module" in sk.tags)
